@@ -26,6 +26,12 @@ func NewDecls(repoPkgs map[string]bool) *Decls {
 
 const maxLen = "281474976710656" // 2^48
 
+// preludeHard: quantified string axioms that make model construction hard; dropped in
+// counterexample-search queries (candidates are validated by replay on the real code).
+func preludeIsHard(l string) bool {
+	return strings.Contains(l, "forall") && (strings.Contains(l, "(ssub s a b)") || strings.Contains(l, "(scat s t)") || strings.Contains(l, "(= s str_empty)"))
+}
+
 var prelude = []string{
 	"(declare-sort Str 0)",
 	"(declare-sort Iface 0)",
